@@ -192,8 +192,10 @@ def case(g, tier, ci):
         ops += [{**o, "_step": step} for o in snap(watch)]
     if not have_sub and N % 2 == 1:
         # a sweep that is refused part-way (the second duration is 0): the input sequence is what it was
-        forced = list(forced) + [{"op": "tl.repvary", "id": "tvbad", "seq": "s", "to": "tvbad", "lens": [1, 1, 1, 1, 1], "poss": [1],
-                                  "vars": [{"chan": 1, "name": n0, "arg": enc("duration"), "vals": [enc(info["counts"][0] / SR), enc(0)]}]}]
+        # (two varied parameters: at the second step the first one is applied before the second one is refused)
+        forced = list(forced) + [{"op": "tl.repvary", "id": "tvbad", "seq": "s", "to": "tvbad", "lens": [2, 2, 2, 2, 2], "poss": [1, 1],
+                                  "vars": [{"chan": 1, "name": n0, "arg": 0, "vals": [enc(0.25), enc(0.5)]},
+                                           {"chan": 1, "name": n0, "arg": enc("duration"), "vals": [enc(info["counts"][0] / SR), enc(0)]}]}]
     arbs = [n for n, f in segs if f == "arb"]
     if arbs:
         # the keyword dict of an arb_func segment is handed on by copy() / + / addBluePrint as it is: an edit of it on one
